@@ -18,13 +18,26 @@ META = {
             "The String() methods of ast.go are tied by regeneration too: extract/astprint re-derives, for all 68 printable node types, the fields, the fields the printer reads and the ordered, "
             "condition-guarded parts of the method body, and from parser.y the fields every production sets; theorems: every field is read by its printer (exemption: BaseExpr), the print sequences equal "
             "the reviewed reference (Ref/AstPrint.lean), every field a production sets is printed under a condition that holds for it, the operator printers emit what the model's print does. "
-            "PARTIAL: the rest of the grammar layer (other statements, set operators, sub-selects, INTO / WITH / FOR UPDATE / FETCH / LATERAL, BETWEEN / IN / NOT LIKE / ANY / ALL / row values, functions; goyacc driver + semantic actions + the other String() methods) is not modelled - "
+            "THE GOYACC DRIVER AND ITS TABLES are in the model as well (Model/Lalr.lean: the loop of (*yyParserImpl).Parse with yylex1 and (*Lexer).Lex as a total function over "
+            "lists of token codes, every table / stack read through a checked accessor whose failure is a visible outcome; tables yyExca yyAct yyPact yyPgo yyR1 yyR2 yyChk yyDef yyTok1-3 "
+            "and constants REGENERATED from lib/parser/parser.go on every run by extract/lalr, the statement text of the loop outside the semantic actions, of yylex1, Parse and Lexer.Lex pinned "
+            "against a reviewed copy (gen_driver_eq_ref), every semantic action classified (pure construction / what else it does; window yyS[yypt-N : yypt+1] with N = yyR2, yyDollar[k] with k <= N)). "
+            "Proved for ALL token lists and all fuel (Props/C18Lalr.lean): lalr_tables_wf (sizes, every yyAct entry a state, production and nonterminal indices, yyExca blocks, token tables; one kernel evaluation of a Bool checker), "
+            "lalr_no_index_panic (no table read and no stack read of the driver is ever out of range - including that a reduction never pops below the stack bottom and the yyDollar window is inside the stack: "
+            "an invariant 'the stack is a chain in a lower-neighbour relation closed under every shift and goto of the tables, and no state reduces more symbols than its depth', the relation and the depths being certificates "
+            "the extractor computes and Lean re-checks), lalr_step_progress / lalr_terminates / lalr_fuel_irrelevant (a measure - tokens left, then sum of state weights + rank of the top state, also certificates - strictly decreases "
+            "with every round: the loop terminates WITHOUT fuel, `parse` is a total function of the token list), lalr_error_position_in_input (a syntax error names a token of the input or its end), lalr_parse_total; "
+            "tied to the real parser by stream op c18.lalr: real Scanner + real parser.Parse with goyacc's own debug trace switched on against the model - same verdict, same offending token, same sequence of (production, state) reductions. "
+            "PARTIAL: the rest of the grammar layer (other statements, set operators, sub-selects, INTO / WITH / FOR UPDATE / FETCH / LATERAL, BETWEEN / IN / NOT LIKE / ANY / ALL / row values, functions; the BODIES of the semantic actions, that the goyacc tables implement the grammar of parser.y, the other String() methods) is not modelled - "
             "parser.Parse totality, error positions, print/parse fixpoint and evaluation agreement are validated by correspondence only "
             "(corpus + grammar-aware mutation + generated queries, all four prepared x ansi-quotes modes)",
     "design_ref": "DESIGN.md section 5, C18",
     "note": "trusted: Lean kernel (axioms propext, Classical.choice, Quot.sound only), harness + driver; unicode.IsLetter/IsDigit are parameters of the "
             "theorems (driver instance: ASCII + a fixed rune pool, which the harness stays inside and checks against Go's tables); "
-            "known printer defects are reported under stable law names print_parse_fixpoint:<defect>",
+            "known printer defects are reported under stable law names print_parse_fixpoint:<defect>; "
+            "LALR part: trusted are extract/lalr (go/ast over parser.go: integer literals of the tables, go/printer text of the loop; fails closed on unknown tables / constants / statement forms), "
+            "the bodies of the 526 semantic actions beyond their classification (25 of them use a type assertion without ok, 2 index a string / slice: these can still panic if the grammar hands them another type - searched by the totality stream only), "
+            "and goyacc's table construction (that the tables implement parser.y); the certificates shipped with the tables (lower-neighbour relation, depths, weights, ranks, low-bit table) are NOT trusted: Lean re-checks them",
     "technique": "Lean 4 machine-checked proof over a hand-written model + differential correspondence with the Go implementation; "
                  "grammar layer: differential/metamorphic testing of the real parser only",
 }
@@ -37,12 +50,15 @@ def run(run):
         "unicode.IsSpace is the fixed White_Space set; strings.EqualFold / strings.ToUpper against ASCII keywords are modelled with the two non-ASCII runes that fold / upper-case into ASCII (U+017F, U+212A / U+0131, U+017F)",
         "strconv.ParseInt / ParseFloat on the digit strings scanNumber builds are modelled by exact integer arithmetic (range check 2^1024 - 2^970); digit runs sent to the model are at most 400 runes",
         "operator-expression fragment: the Lean parser is precedence climbing with yacc's shift/reduce resolution (token level vs pending rule level, %left reduce / %right shift / %nonassoc error); that this equals what goyacc's LALR tables do on the fragment is validated by stream op c18.opx (accept/reject, tree shape, printed tokens), not proved",
-        "the rest of the grammar layer (goyacc tables, driver loop, semantic actions, statements and clauses) is outside the Lean model: parse_total:* and print_parse_* are established by correspondence only (partial)",
+        "goyacc driver: the model runs over token CODES (what Scanner.Scan returns; (*Lexer).Lex's rewriting of the Uncategorized code is modelled); semantic values are dropped, so the semantic actions are outside the model beyond their classification; Go ints are unbounded integers (the stack depth is bounded by memory, not by the driver)",
+        "the rest of the grammar layer (semantic actions, statements and clauses as trees) is outside the Lean model: parse_total:* and print_parse_* are established by correspondence only (partial)",
         "print_parse_eval_agree is checked only for generated constant SELECT queries (no tables, whitelisted deterministic functions); texts are never executed otherwise",
     ]
     run.regen("precedence", ["go", "run", "-C", "extract/precedence", ".", str(REPO / "lib" / "parser" / "parser.y")], "Csvq/Gen/Precedence.lean")
     run.regen("astprint", ["go", "run", "-C", "extract/astprint", "."], "Csvq/Gen/AstPrint.lean")
-    run.obligations_for(["Csvq.Props.C18"])
+    run.regen("lalr-tables", ["go", "run", "-C", "extract/lalr", ".", "tables"], "Csvq/Gen/LalrTables.lean")
+    run.regen("lalr-driver", ["go", "run", "-C", "extract/lalr", ".", "driver"], "Csvq/Gen/LalrDriver.lean")
+    run.obligations_for(["Csvq.Props.C18", "Csvq.Props.C18Lalr"])
     run.stream("c18", 30000 if q else 400000)
     if not q:
         for k in range(1, 5):
@@ -57,12 +73,14 @@ def run(run):
              "(c) structural comparison (positions ignored) of parse(print(t)) with t for every printable sub-tree of every statement (law print_parse_tree_differs), two select-list items with equal printed text but different trees (law distinct_trees_same_text), "
              "a clause matrix covering every combination of the optional parts of each production (order item direction x NULLS position, LIMIT/FETCH x unit x restriction x OFFSET, DISTINCT, IGNORE NULLS, WITHIN GROUP, frames, join kind x NATURAL/USING/ON x LATERAL, set operators x ALL, WITH, FOR UPDATE, INTO; measured per parsed tree in stats clause:*), "
              "evaluation agreement on two tables with NULLs and duplicates; String() -> Parse -> String() fixpoint for every text that parses to one query expression, evaluation agreement for generated constant queries; "
+             "goyacc driver (op c18.lalr): every text of (b) in its mode, plus token-level damage with the whole vocabulary of the grammar (every keyword, literal class and punctuation: delete / repeat / swap / replace / insert / shuffle a window / cut short, and pure token soup) - the real scanner's token codes go to the model, the real parser's verdict, offending token and reduction trace are compared; stats lalr:accept / lalr:syntax-error, lalr.productions_reduced of lalr.productions_total; "
              "operator expressions: random trees of the fragment written down without added parentheses (depth <= 5) plus damaged token lists, real parser + String() against the model's parse / print; non-trivial = distinct (mode, token-kind sequence, outcome / statement types) or (rune classes, length band) or unary tree shape",
         trusted_base=BASE_TRUST + [
             "unicode.IsLetter/IsDigit tables (parameters of the theorems; driver instance = ASCII + fixed pool, checked against Go at harness start)",
             "extract/precedence (reads parser.y as text; refuses unknown declarations, production shapes and actions)",
             "extract/astprint (go/ast over ast.go and over the Go code of the actions of parser.y; refuses statement forms outside its subset; conditions are the lexically enclosing ones, early returns appear as return parts)",
-            "goyacc-generated parser tables and driver loop, semantic actions of parser.y, String() methods other than the unary operators (validated by correspondence only)",
+            "extract/lalr (go/ast over parser.go / lexer.go / scanner.go; refuses unknown tables, constants, statement forms in actions)",
+            "bodies of the semantic actions of parser.y, goyacc's table construction (tables = grammar), String() methods other than the unary operators (validated by correspondence only)",
         ],
-        checker_cmd="cd /verif/lean && lake build Csvq.Props.C18 && lake env lean <#print axioms for every theorem>",
+        checker_cmd="cd /verif/lean && lake build Csvq.Props.C18 Csvq.Props.C18Lalr && lake env lean <#print axioms for every theorem>",
     )
